@@ -263,7 +263,149 @@ fn fix_sleeps(prog: &mut [Cop], timeout: Option<u64>) {
     }
 }
 
+/// registry family: 1-4 tasks x two service types, all seven registry operations plus stop,
+/// self-termination (awaited by someone / by nobody), liveness queries and probe calls
+pub fn gen_registry(r: &mut Rng, with_queries: bool) -> Case {
+    let p = base();
+    let svc_spec = |r: &mut Rng| {
+        let mut s = Spec::default();
+        if r.chance(400) {
+            s.started = vec![Act::Push(300 + r.below(50) as u32)];
+        }
+        if r.chance(200) {
+            s.stopped = vec![Act::Push(7)];
+        }
+        s
+    };
+    let svc = vec![svc_spec(r), svc_spec(r)];
+    let nclients = 1 + r.below(4);
+    let nslots = 6u64;
+    let mut clients = vec![];
+    for _ in 0..nclients {
+        let mut prog = vec![];
+        let n = 3 + r.below(8);
+        for _ in 0..n {
+            let ty = 1 + r.below(2) as u8;
+            let x = r.below(nslots) as usize;
+            let h = r.below(nslots) as usize;
+            let cop = match r.below(if with_queries { 24 } else { 20 }) {
+                0..=3 => Cop::FromRegistry { x, ty },
+                4 => Cop::Setup { ty },
+                5 | 6 => {
+                    let mut sp = svc[(ty - 1) as usize].clone();
+                    sp.ty = ty;
+                    sp.entry = Entry::Spawn;
+                    prog.push(Cop::Spawn { x, spec: sp });
+                    if r.chance(700) { Cop::Register { h: x } } else { Cop::Replace { h: x } }
+                }
+                7 => Cop::Register { h },
+                8 => Cop::Replace { h },
+                9 => Cop::Unregister { x, ty },
+                10 | 11 => Cop::TryFromRegistry { x, ty },
+                12 | 13 => Cop::AlreadyRunning { ty },
+                14 => Cop::Stop { h },
+                15 => Cop::Halt { h },
+                16 => Cop::Call { h, script: if r.chance(300) { vec![Act::CtxStop] } else { vec![] } },
+                17 => Cop::Drop { h },
+                18 => Cop::Sleep(1 + r.below(10)),
+                19 => Cop::Yield,
+                20 | 21 => Cop::Stopped { h },
+                22 => Cop::Running { h },
+                _ => Cop::Await { h, by_ref: r.chance(500) },
+            };
+            prog.push(cop);
+        }
+        clients.push(prog);
+    }
+    let _ = p;
+    Case { clients, sched_seed: r.next(), crashes: vec![], spurious_pm: 0, max_polls: 4000, horizon_ms: 3000, svc }
+}
+
+/// children family: trees up to depth 3 / 6 nodes, children under different message types, some
+/// also held from outside, parent termination by every cause at any time
+pub fn gen_children(r: &mut Rng) -> Case {
+    fn child_spec(r: &mut Rng, depth: u64, budget: &mut u64) -> Spec {
+        let mut s = Spec::default();
+        s.entry = if r.chance(500) { Entry::Spawn } else { Entry::Builder };
+        s.bound = if r.chance(300) { Some(1 + r.below(3) as usize) } else { None };
+        if r.chance(300) {
+            s.started.push(Act::Push(50 + r.below(20) as u32));
+        }
+        if r.chance(300) {
+            s.stopped.push(Act::Push(9));
+        }
+        while depth < 3 && *budget > 0 && r.chance(450) {
+            *budget -= 1;
+            let ty = r.below(3) as u8;
+            s.started.push(Act::SpawnChild { ty, spec: Box::new(child_spec(r, depth + 1, budget)) });
+        }
+        s
+    }
+    let mut budget = 5u64;
+    let mut parent = child_spec(r, 1, &mut budget);
+    parent.entry = Entry::Builder;
+    if r.chance(150) {
+        parent.timeout = Some(2 * (2 + r.below(10)));
+        parent.fail_on_timeout = true;
+    }
+    let mut c0 = vec![Cop::Spawn { x: 0, spec: parent }];
+    // some children spawned by the client and handed over (possibly keeping another handle)
+    let mut slot = 1usize;
+    for _ in 0..r.below(3) {
+        if budget == 0 {
+            break;
+        }
+        budget -= 1;
+        let sp = child_spec(r, 3, &mut 0);
+        c0.push(Cop::Spawn { x: slot, spec: sp });
+        if r.chance(500) {
+            c0.push(Cop::Clone { x: slot + 1, h: slot });
+        }
+        c0.push(Cop::Send { h: 0, script: vec![Act::AddChild { ty: r.below(3) as u8, var: slot }] });
+        slot += 2;
+    }
+    let n = 2 + r.below(6);
+    for _ in 0..n {
+        let cop = match r.below(10) {
+            0..=2 => Cop::Send { h: 0, script: vec![Act::SendChildren { ty: 1 + r.below(2) as u8, v: 60 + r.below(30) as u32 }] },
+            3 => Cop::Send { h: 0, script: vec![Act::Push(1), Act::Sleep(1 + 2 * r.below(8))] },
+            4 => Cop::Call { h: 0, script: vec![] },
+            5 => Cop::Send { h: 0, script: vec![Act::Panic] },
+            6 => Cop::Restart { h: 0 },
+            7 => Cop::Call { h: 1 + r.below(slot as u64) as usize, script: vec![] },
+            8 => Cop::Sleep(1 + r.below(20)),
+            _ => Cop::Yield,
+        };
+        c0.push(cop);
+    }
+    // end of the parent
+    match r.below(5) {
+        0 => c0.push(Cop::Stop { h: 0 }),
+        1 => c0.push(Cop::Halt { h: 0 }),
+        2 => c0.push(Cop::Send { h: 0, script: vec![Act::CtxStop] }),
+        _ => {}
+    }
+    c0.push(Cop::Sleep(20 + r.below(40)));
+    for x in 0..slot + 2 {
+        c0.push(Cop::Drop { h: x });
+    }
+    let mut crashes = vec![];
+    if r.chance(200) {
+        crashes.push(Crash { actor: 0, after_polls: 1 + r.below(8) as usize });
+    }
+    Case { clients: vec![c0], sched_seed: r.next(), crashes, spurious_pm: 0, max_polls: 4000, horizon_ms: 3000, svc: vec![] }
+}
+
 pub fn gen_case(family: &str, r: &mut Rng) -> Case {
+    if family == "children" {
+        return gen_children(r);
+    }
+    if family == "registry" {
+        return gen_registry(r, false);
+    }
+    if family == "registry-liveness" {
+        return gen_registry(r, true);
+    }
     let p = profile(family);
     let nclients = 1 + r.below(p.max_clients);
     let sp = spec(r, &p);
